@@ -1,6 +1,6 @@
 SPECIFICATION Spec
 CONSTANTS
-  Profiles = {"win2stray", "riders1big", "riders2big", "early2"}
+  Profiles = {"win2stray", "riders1big", "riders2big", "early2", "frozen3", "frozenrid", "same2", "same2w2", "same3", "samerid"}
 INVARIANT TypeOK
 INVARIANT ReadingsAgree
 INVARIANT WindowsOK
